@@ -520,12 +520,20 @@ class An(ResultQuantifier[T]):
 
     def evaluate(self) -> Iterable[TypingUnion[T, Dict[TypingUnion[T, SymbolicExpression[T]], T]]]:
         self._reset_cache_()
+        results = iter(self._evaluate__())
         try:
-            with symbolic_mode(mode=None):
-                results = self._evaluate__()
-                assert not in_symbolic_mode()
-                yield from map(self._process_result_, results)
+            while True:
+                # Symbolic mode is switched off only while a result is being computed, the mode of the caller is
+                # restored before handing the result over.
+                with symbolic_mode(mode=None):
+                    try:
+                        result = self._process_result_(next(results))
+                    except StopIteration:
+                        break
+                yield result
         finally:
+            with symbolic_mode(mode=None):
+                results.close()
             self._reset_cache_()
 
     def _evaluate__(self, sources: Optional[Dict[int, HashedValue]] = None, yield_when_false: bool = False) -> Iterable[T]:
